@@ -45,6 +45,26 @@ pub fn ntowfv2(nt_hash: &[u8; 16], user: &str, domain: &str) -> [u8; 16] {
     hmac_md5(nt_hash, &utf16le(&(user.to_uppercase() + domain)))
 }
 
+/// MS-NLMP writes UpperCase(User) and does not say which mapping that is. Two are in use: the full Unicode mapping
+/// ("ß" -> "SS", supplementary planes mapped) and the one-UTF-16-unit-at-a-time mapping of Windows, Samba and FreeRDP
+/// (a unit is replaced by one unit or kept). An account data base built with either is an MS-NLMP server; the
+/// verifier accepts a proof made with either (they only differ on a few characters).
+pub fn upper_case_variants(user: &str) -> Vec<String> {
+    let full = user.to_uppercase();
+    let simple: String = user.chars().map(|c| {
+        let mut u = c.to_uppercase();
+        match (u.next(), u.next()) {
+            (Some(x), None) if c.len_utf16() == 1 && x.len_utf16() == 1 => x,
+            _ => c,
+        }
+    }).collect();
+    if simple == full { vec![full] } else { vec![full, simple] }
+}
+
+fn ntowfv2_with(nt_hash: &[u8; 16], upper_user: &str, domain: &str) -> [u8; 16] {
+    hmac_md5(nt_hash, &utf16le(&(upper_user.to_string() + domain)))
+}
+
 fn u16_at(m: &[u8], o: usize) -> usize {
     u16::from_le_bytes([m[o], m[o + 1]]) as usize
 }
@@ -258,6 +278,10 @@ pub struct Verified {
     pub session_base_key: [u8; 16],
     pub client_challenge: [u8; 8],
     pub mic_checked: bool,
+    /// which reading of UpperCase(User) made the proof verify (index into `upper_case_variants`) and how many readings
+    /// the user name has (1 = they coincide)
+    pub upper_variant: usize,
+    pub upper_variants: usize,
 }
 
 /// Server-side verification of the AUTHENTICATE_MESSAGE (MS-NLMP 3.3.2, 3.2.5.2.2)
@@ -345,11 +369,13 @@ pub fn verify_authenticate(neg: &Negotiate, challenge_raw: &[u8], challenge_cfg:
     }
 
     let server_challenge = &challenge_cfg.server_challenge;
-    let key = ntowfv2(nt_hash, &user, &domain);
-    let expected = hmac_md5(&key, &[&server_challenge[..], temp].concat());
-    if proof != &expected[..] {
-        return Err("ntproof: NTProofStr mismatch".into());
-    }
+    let variants = upper_case_variants(&user);
+    let upper_variants = variants.len();
+    let (upper_variant, key) = match variants.iter().map(|u| ntowfv2_with(nt_hash, u, &domain)).enumerate()
+        .find(|(_, key)| proof == &hmac_md5(key, &[&server_challenge[..], temp].concat())[..]) {
+        Some(found) => found,
+        None => return Err("ntproof: NTProofStr mismatch".into()),
+    };
 
     // LMv2: Z(24) or HMAC_MD5(key, ServerChallenge || ClientChallenge) || ClientChallenge
     let lm = &auth.lm_response;
@@ -386,7 +412,7 @@ pub fn verify_authenticate(neg: &Negotiate, challenge_raw: &[u8], challenge_cfg:
             return Err("mic: MIC mismatch".into());
         }
     }
-    Ok(Verified { user, domain, exported_session_key, session_base_key, client_challenge, mic_checked: auth.mic.is_some() })
+    Ok(Verified { user, domain, exported_session_key, session_base_key, client_challenge, mic_checked: auth.mic.is_some(), upper_variant, upper_variants })
 }
 
 /// NTLMv2 session security, extended session security + key exchange, 128 bit (MS-NLMP 3.4)
